@@ -163,7 +163,9 @@ def check(run, F, tier):
                     st.heap[(("arg", pname), ())] = cs
                 else:
                     st.heap[(fr.root(pidx), ())] = cs
-            exv = explore.Explorer(F, loop_k=2)
+            # helpers the validator hands its list to are part of it (a shared occurrence counter, a table walker ...)
+            exv = explore.Explorer(F, loop_k=2, inline_pred=lambda ex, callee, info: explore.default_inline(ex, callee, info)
+                                   or explore.small_private_helper(callee, props_ok=True))
             res = set()
             for p in exv.run(path, setup=setup):
                 if p.kind == "return" and p.ret and p.ret[0] == "agg" and p.ret[1] == "std::result::Result":
